@@ -331,3 +331,145 @@ pub fn record_c16(rng: &mut Rng, count: u64, out: &mut Out) {
     }
   }
 }
+
+// ------------------------------------------------------------------------------------------ C13
+fn bmoc_fields(m: &mut serde_json::Map<String, Value>, res: &Option<cdshealpix::nested::bmoc::BMOC>) -> Option<Vec<C>> {
+  match res {
+    None => { m.insert("p".into(), json!(1)); m.insert("dmax".into(), json!(0)); m.insert("cells".into(), json!([])); None }
+    Some(bm) => { let cells = cells_of(bm); m.insert("p".into(), json!(0)); m.insert("dmax".into(), json!(bm.get_depth_max())); m.insert("cells".into(), cells_json(&cells)); Some(cells) }
+  }
+}
+fn worst_slack(cells: &[C], lon: f64, lat: f64, r: f64) -> i64 {
+  let mut slack: f64 = -1.0;
+  for c in cells { let (l, b) = cell_centre(c); slack = slack.max(ang_dist(l, b, lon, lat) - (r + 2.0 * dmax(c.p.len() as u8))); }
+  e15(slack)
+}
+
+pub fn ellipse_event(rng: &mut Rng, depth: u8, dd: u8, lon: f64, lat: f64, a: f64, b: f64, pa: f64, class: &str) -> Option<Value> {
+  let res = guarded(|| if dd == 0 { nested::elliptical_cone_coverage(depth, lon, lat, a, b, pa) } else { nested::elliptical_cone_coverage_custom(depth, dd, lon, lat, a, b, pa) });
+  if res.as_ref().map_or(false, |bm| bm.entries.len() > MAX_CELLS) { return None; }
+  let n = 1u32 << depth;
+  let mut ev = json!({"ev": "ellipse", "d": depth, "dd": dd, "f": face_of(n, lon, lat).json(), "circular": (a == b) as u8, "cls": class,
+                      "in": format!("{} a={:e} b={:e} pa={:e}", pos_str(lon, lat), a, b, pa)});
+  let m = ev.as_object_mut().unwrap();
+  let cells = bmoc_fields(m, &res);
+  let wit = if a == b && res.is_some() { cone_witnesses(rng, depth, lon, lat, a, 80) } else { vec![] };
+  m.insert("wit".into(), Value::Array(wit.iter().map(|c| json!({"b": c.b, "p": c.p})).collect()));
+  m.insert("slack".into(), json!(cells.as_ref().map_or(-1, |cs| worst_slack(cs, lon, lat, a))));
+  Some(ev)
+}
+
+pub fn record_c13(rng: &mut Rng, count: u64, out: &mut Out) {
+  let thr = thresholds().clone();
+  while out.n < count {
+    if out.n % 30 == 29 {
+      // a semi-major axis >= pi/2 is rejected by a panic
+      let a = *rng.pick(&[HALF_PI, next_up(HALF_PI), 2.0, 3.0]);
+      let depth = rng.below(6) as u8;
+      let p1 = guarded(|| nested::elliptical_cone_coverage(depth, 1.0, 0.5, a, 0.1, 0.3)).is_none();
+      let p2 = guarded(|| nested::elliptical_cone_coverage_custom(depth, 2, 1.0, 0.5, a, 0.1, 0.3)).is_none();
+      out.emit(json!({"ev": "ellipse_bad", "pp": p1 as u8, "pc": p2 as u8, "in": format!("a={:e}", a)}));
+      continue;
+    }
+    let (lon, lat, class) = if rng.below(3) == 0 { crate::sc_nested::gen_border_position(rng) } else { gen_position(rng) };
+    let lon = lon.rem_euclid(TWO_PI);
+    let (a, _) = match rng.below(4) { 0 => (*rng.pick(&thr) * *rng.pick(&[0.97, 1.0 - 1e-9, 1.0 + 1e-9, 1.03]), "t"), 1 => (next_down(HALF_PI) * rng.range(0.5, 1.0), "large"), _ => (10f64.powf(rng.range(-7.0, 0.15)), "log") };
+    let a = a.min(next_down(HALF_PI));
+    let ratio = *rng.pick(&[1.0, 1.0, 0.9, 0.5, 0.1, 0.01]);
+    let b = a * ratio;
+    let rpa = rng.range(0.0, PI);
+    let pa = *rng.pick(&[0.0, PI / 4.0, HALF_PI, 3.0 * PI / 4.0, PI - 1e-9, rpa]);
+    let depth = gen_depth(rng, a);
+    let dd = if rng.below(3) == 0 { (1 + rng.below(3) as u8).min(29 - depth) } else { 0 };
+    if let Some(ev) = ellipse_event(rng, depth, dd, lon, lat, a, b, pa, class) { out.emit(ev); }
+  }
+}
+
+// ------------------------------------------------------------------------------------------ C12
+fn cross(a: [f64; 3], b: [f64; 3]) -> [f64; 3] { [a[1] * b[2] - a[2] * b[1], a[2] * b[0] - a[0] * b[2], a[0] * b[1] - a[1] * b[0]] }
+fn dot(a: [f64; 3], b: [f64; 3]) -> f64 { a[0] * b[0] + a[1] * b[1] + a[2] * b[2] }
+/// geometric definition for a convex polygon: on the same side of every edge's great circle as the polygon's interior
+/// point `c`; None when within `margin` of an edge's great circle
+fn inside_convex(vs: &[(f64, f64)], c: (f64, f64), p: (f64, f64), margin: f64) -> Option<bool> {
+  let pv = vec3(p.0, p.1);
+  let cv = vec3(c.0, c.1);
+  let mut inside = true;
+  for k in 0..vs.len() {
+    let (a, b) = (vec3(vs[k].0, vs[k].1), vec3(vs[(k + 1) % vs.len()].0, vs[(k + 1) % vs.len()].1));
+    let nrm = cross(a, b);
+    let nn = dot(nrm, nrm).sqrt();
+    let (sp, sc) = (dot(nrm, pv) / nn, dot(nrm, cv) / nn);
+    if sp.abs() <= margin { return None; }
+    if (sp > 0.0) != (sc > 0.0) { inside = false; }
+  }
+  Some(inside)
+}
+
+pub fn polygon_event(rng: &mut Rng, depth: u8, exact: bool, centre: (f64, f64), radius: f64, vs: &[(f64, f64)], convex: bool, class: &str) -> Option<Value> {
+  let res = guarded(|| nested::polygon_coverage(depth, vs, exact));
+  if res.as_ref().map_or(false, |bm| bm.entries.len() > MAX_CELLS) { return None; }
+  let n = 1u32 << depth;
+  let mut ev = json!({"ev": "polygon", "d": depth, "exact": exact as u8, "convex": convex as u8, "nv": vs.len(), "cls": class,
+                      "vf": vs.iter().map(|(l, b)| face_of(n, l.rem_euclid(TWO_PI), *b).json()).collect::<Vec<_>>(),
+                      "in": format!("{} r={:e} {:?}", pos_str(centre.0, centre.1), radius, vs)});
+  let m = ev.as_object_mut().unwrap();
+  let cells = bmoc_fields(m, &res);
+  // convex polygons: a cell flagged full has its 4 vertices and its centre inside (margin 1e-9 around the edges)
+  let mut full_bad = 0;
+  if let (true, Some(cs)) = (convex, &cells) {
+    for c in cs.iter().filter(|c| c.f).take(120) {
+      let mut pts = cell_border_points(c, 0);
+      pts.push(cell_centre(c));
+      if pts.iter().any(|p| inside_convex(vs, centre, *p, 1e-9) == Some(false)) { full_bad += 1; }
+    }
+  }
+  m.insert("full_bad".into(), json!(full_bad));
+  // tightness with respect to the cone the polygon was built in (only claimed below 0.3 rad)
+  m.insert("slack".into(), json!(if radius < 0.3 { cells.as_ref().map_or(-1, |cs| worst_slack(cs, centre.0, centre.1, radius)) } else { -1 }));
+  // the public point-in-polygon predicate agrees with the geometric definition (convex, fits in 0.3 rad)
+  let mut contains_bad = 0;
+  let mut contains_n = 0;
+  if convex && radius < 0.3 {
+    use cdshealpix::sph_geom::coo3d::{Coo3D, LonLat};
+    use cdshealpix::sph_geom::Polygon;
+    let poly = guarded(|| Polygon::new(vs.iter().map(|(l, b)| LonLat { lon: *l, lat: *b }).collect::<Vec<_>>().into_boxed_slice()));
+    if let Some(poly) = poly {
+      for k in 0..60 {
+        let p = match k % 3 { 0 => offset_point(centre.0, centre.1, radius * rng.range(0.0, 1.6), rng.range(0.0, TWO_PI)),
+                              1 => { let v = vs[rng.below(vs.len() as u64) as usize]; offset_point(v.0, v.1, radius * 0.05 * rng.f64(), rng.range(0.0, TWO_PI)) }
+                              _ => (rng.range(0.0, TWO_PI), rng.range(-1.0, 1.0f64).asin()) };
+        if let Some(exp) = inside_convex(vs, centre, p, 1e-9) {
+          contains_n += 1;
+          let got = guarded(|| poly.contains(&Coo3D::from_sph_coo(p.0, p.1)));
+          if got != Some(exp) { contains_bad += 1; }
+        }
+      }
+    } else { contains_bad += 1; }
+  }
+  m.insert("contains_bad".into(), json!(contains_bad));
+  m.insert("contains_n".into(), json!(contains_n));
+  Some(ev)
+}
+
+pub fn record_c12(rng: &mut Rng, count: u64, out: &mut Out) {
+  while out.n < count {
+    // centre anywhere short of the poles, incl. lon = 0 crossing and base-cell seams
+    let (lon, lat, class) = match rng.below(4) { 0 => (rng.range(-0.05, 0.05f64).rem_euclid(TWO_PI), rng.range(-1.0, 1.0), "lon0"), 1 => crate::sc_nested::gen_border_position(rng), _ => gen_position(rng) };
+    let radius = match rng.below(4) { 0 => rng.range(0.3, 0.78), 1 => rng.range(0.05, 0.29), _ => 10f64.powf(rng.range(-7.0, -0.55)) };
+    let lat = lat.max(-(HALF_PI - radius - 0.12)).min(HALF_PI - radius - 0.12);
+    let lon = lon.rem_euclid(TWO_PI);
+    let nv = 3 + rng.below(6) as usize;
+    let convex = rng.below(3) != 0;
+    let a0 = rng.range(0.0, TWO_PI);
+    let cw = rng.bool();
+    let mut vs: Vec<(f64, f64)> = (0..nv).map(|k| {
+      let az = a0 + TWO_PI * (k as f64 + if convex { 0.0 } else { rng.range(-0.3, 0.3) }) / nv as f64;
+      let rho = radius * if convex { 1.0 } else { rng.range(0.35, 1.0) };
+      offset_point(lon, lat, rho, az)
+    }).collect();
+    if cw { vs.reverse(); }
+    let depth = gen_depth(rng, radius).min(29);
+    let exact = rng.bool();
+    if let Some(ev) = polygon_event(rng, depth, exact, (lon, lat), radius, &vs, convex, class) { out.emit(ev); }
+  }
+}
